@@ -94,15 +94,14 @@ void snoopy_message_generateFromFormat (
             return; // Should be "break;" but SonarCloud is complaining about it
         }
 
-        // Otherwise copy text up to the next data source tag
-        lengthToCopy = (int) (fmtPos_nextFormatTag - fmtPos_cur + 1); // + 1 for null termination
-        if (lengthToCopy > dataSourceMsgBufSize) {
-            lengthToCopy = dataSourceMsgBufSize;
+        // Otherwise copy text up to the next data source tag - verbatim, whatever its length
+        // (the data source message buffer must not be used for this, its size limit is for data sources only)
+        lengthToCopy = (size_t) (fmtPos_nextFormatTag - fmtPos_cur);
+        if (lengthToCopy > 0) {
+            char * literalText = strndup(fmtPos_cur, lengthToCopy);
+            snoopy_message_append(logMessage, logMessageBufSize, literalText);
+            free(literalText);
         }
-        dataSourceMsg[0] = '\0'; // Let's just use this buffer, even if it is called something else
-        snprintf(dataSourceMsg, lengthToCopy, "%s", fmtPos_cur);
-        snoopy_message_append(logMessage, logMessageBufSize, dataSourceMsg);
-        dataSourceMsg[0] = '\0'; // And wipe it for later reuse
 
         // Get data source tag
         fmtPos_nextFormatTagClose = strstr(fmtPos_nextFormatTag, "}");
